@@ -42,7 +42,8 @@ TCallSend == IsEvent("call_send") /\ ~Ctl /\ nextVal = R.v /\ Step(R.t) /\ NewTo
              /\ Top(R.t).val = 0
 
 TLoad == /\ IsEvent("op") /\ ~Ctl /\ R.k = "load"
-         /\ R.o = (IF Top(R.t).pc \in {"s_ld", "r_ld"} THEN OrdDeqLoad ELSE OrdEnqLoad)
+         /\ R.o = (CASE Top(R.t).pc = "s_ld" -> OrdSDeqLoad [] Top(R.t).pc = "s_ld2" -> OrdSEnqLoad
+                   [] Top(R.t).pc = "r_ld" -> OrdRDeqLoad [] OTHER -> OrdREnqLoad)
          /\ Top(R.t).pc \in {"s_ld", "s_ld2", "r_ld", "r_ld2"} /\ Top(R.t).val + 1 > 0
          /\ (Top(R.t).pc = "s_ld" => Top(R.t).val # 0)
          /\ (Top(R.t).pc \in {"s_ld", "r_ld2"}) = (R.l = "empty")
@@ -51,14 +52,16 @@ TLoad == /\ IsEvent("op") /\ ~Ctl /\ R.k = "load"
 TCasOk == /\ IsEvent("op") /\ ~Ctl /\ R.k = "cas_weak" /\ R.ok
           /\ Top(R.t).cur = R.a /\ M!Latest(QLoc(R.l)) = R.old
           /\ (Top(R.t).pc \in {"s_deq", "r_enq"}) = (R.l = "empty")
-          /\ R.o = (IF Top(R.t).pc \in {"s_deq", "r_deq"} THEN OrdDeqOk ELSE OrdEnqOk)
+          /\ R.o = (CASE Top(R.t).pc = "s_deq" -> OrdSDeqOk [] Top(R.t).pc = "s_enq" -> OrdSEnqOk
+                    [] Top(R.t).pc = "r_deq" -> OrdRDeqOk [] OTHER -> OrdREnqOk)
           /\ (S_DeqOk(R.t) \/ S_EnqOk(R.t) \/ R_DeqOk(R.t) \/ R_EnqOk(R.t))
           /\ hist'[QLoc(R.l)][Len(hist'[QLoc(R.l)])].val = R.new
 
 TCasFail == /\ IsEvent("op") /\ ~Ctl /\ R.k = "cas_weak" /\ ~R.ok
             /\ Top(R.t).cur = R.a
             /\ (Top(R.t).pc \in {"s_deq", "r_enq"}) = (R.l = "empty")
-            /\ R.fo = (IF Top(R.t).pc \in {"s_deq", "r_deq"} THEN OrdDeqFail ELSE OrdEnqFail)
+            /\ R.fo = (CASE Top(R.t).pc = "s_deq" -> OrdSDeqFail [] Top(R.t).pc = "s_enq" -> OrdSEnqFail
+                       [] Top(R.t).pc = "r_deq" -> OrdRDeqFail [] OTHER -> OrdREnqFail)
             /\ (S_DeqFail(R.t) \/ S_EnqFail(R.t) \/ R_DeqFail(R.t) \/ R_EnqFail(R.t))
             /\ NewTop(R.t).cur = R.old
   
